@@ -267,7 +267,7 @@ def matrices(repo, rep):
                       % (len(ref3 - got3), len(ref3)), obligation=True)
 
 
-def obliquity(repo, rep):
+def obliquity(repo, rep, span=20, tol=3.0, only_poly=False):
     rep.rule("R-POLY", "polynomial extracted from the source compared with the reference over the property's domain")
     q = "mean_obliquity"
     rep.fn("Coordinates", q)
@@ -291,18 +291,25 @@ def obliquity(repo, rep):
     try:
         cs = numeric_poly(Algebra(), v, "TT")
     except AnalysisError as e:
-        rep.violation("R-POLY", site, "not-poly", "mean obliquity is not a polynomial in T: %s" % e)
+        extra = ""
+        if any(x[0] == "call" and x[1] == "dms2deg" for x in T.walk(v)):
+            extra = (" - a time-dependent quantity is passed as a sexagesimal component of Angle(d, m, s): by the sign rule of the constructor the "
+                     "WHOLE angle turns negative as soon as that component does")
+        rep.violation("R-POLY", site, "not-poly", "mean obliquity is not a polynomial in T: %s%s" % (e, extra), obligation=True)
         return
     worst = 0.0
-    for k in range(-200, 201):
+    for k in range(-10 * span, 10 * span + 1):
         x = k / 10.0
         code = sum(float(c) * x ** i for i, c in enumerate(cs)) * 3600.0
         ref = sum(c * x ** i for i, c in enumerate(IAU76))
         worst = max(worst, abs(code - ref))
-    if worst <= 3.0:
-        rep.ok("R-POLY", site, "degree-%d polynomial vs IAU 1976 cubic: max difference %.3f arcsec over |T| <= 20 cy (<= 3)" % (len(cs) - 1, worst), obligation=True)
+    if worst <= tol:
+        rep.ok("R-POLY", site, "degree-%d polynomial vs IAU 1976 cubic: max difference %.4f arcsec over |T| <= %d cy (<= %g)" % (len(cs) - 1, worst, span, tol), obligation=True)
     else:
-        rep.violation("R-POLY", site, "obliquity", "mean obliquity differs from the IAU cubic by up to %.2f arcsec within 20 centuries of J2000 (> 3)" % worst, obligation=True)
+        rep.violation("R-POLY", site, "obliquity", "mean obliquity differs from the IAU cubic by up to %.2f arcsec within %d centuries of J2000 (> %g)"
+                      % (worst, span, tol), obligation=True)
+    if only_poly:
+        return
     # D6
     rep.fn("Coordinates", "true_obliquity")
     fn2 = repo.func("Coordinates", "true_obliquity")
